@@ -208,6 +208,29 @@ def make_dataset(rng, kind, scale_kind, tier):
                 params=params, grid=grid, ratio=ratio, acoustic_positive=acoustic_positive)
 
 
+def twin_dataset(rng, ds):
+    """same branches sampled on another volume list with the SAME count, first and last volume (interior points moved):
+    anything remembered per 'grid' from an earlier call in the process and recognised by its end points is stale here"""
+    vols = list(ds["vols"])
+    for k in range(1, len(vols) - 1):
+        vols[k] += rng.uniform(-0.35, 0.35) * min(ds["vols"][k - 1] - ds["vols"][k], ds["vols"][k] - ds["vols"][k + 1])
+    table = []
+    for vi, v in enumerate(vols):
+        t = math.log(v) - ds["x0"]
+        row = []
+        for q in range(ds["nq"]):
+            ms = []
+            for m in range(ds["np"]):
+                if q == 0 and m < 3:
+                    ms.append(ds["table"][vi][q][m])
+                    continue
+                p = ds["params"][(q, m)]
+                ms.append(math.exp(sum(c * t ** j for j, c in enumerate(p["cs"])) + p["amp"] * math.sin(p["freq"] * t + p["ph"])))
+            row.append(ms)
+        table.append(row)
+    return dict(ds, vols=vols, table=table, twin=True)
+
+
 def qha_input_of(ds, table=None):
     from cij.io.traditional.models import QHAInputData, VolumeData, QPointData, QPointWeight
     table = ds["table"] if table is None else table
@@ -737,6 +760,9 @@ def run(ctx):
         for kind in ("powerlaw", "poly", "generic"):
             for scale in ("unit", "phys"):
                 datasets.append(make_dataset(rng, kind, scale, ctx.tier))
+                if kind != "generic" and scale == "unit":
+                    datasets.append(twin_dataset(rng, datasets[-1]))     # evaluated right after its original
+                    ctx.count("twin data sets (same end volumes, other interior volumes)")
     cases = []          # (ds_index, method, order, out) compared in Coq
     stats = dict(akima_nan=[], akima_nan_inside=[], fd=0)
     rejected = {}
